@@ -1,10 +1,12 @@
 (* case:   <fixed 0|1> <w> <kind O|G|E> <rules> <tokens> <implicit -|n> <pre_gc> <post_gc> <lexrules> ; c:r:t c:r:t …
+   verdict = PASS or the GUARD that refuses (site, not message: PAGER GC SGNEW STNEW all print the same documented text;
+   checks/C20.py guard_message maps guard -> message class)
    result: g=<verdict> go=<verdict> gf=<verdict> s=<verdict> l=<verdict> true=a,b,.. obs=a,b,.. nowrap=g,s,l lex=<n>,<max>,<ids_are_positions> *)
 let verdict_s = function
   | Pass -> "PASS"
   | Refuse RRules -> "RULES" | Refuse RTokens -> "TOKENS" | Refuse RProds -> "PRODS"
   | Refuse RSymbols -> "SYMBOLS" | Refuse RPager -> "PAGER" | Refuse RGc -> "GC"
-  | Refuse RStateGraph -> "SGASSERT" | Refuse RStateTable -> "STASSERT" | Refuse RLexRule -> "LEXRULE"
+  | Refuse RStateGraph -> "SGNEW" | Refuse RStateTable -> "STNEW" | Refuse RLexRule -> "LEXRULE"
 let ns l = String.concat "," (List.map (fun n -> string_of_int (int_of_n n)) l)
 let b01 b = if b then "1" else "0"
 let () =
